@@ -80,6 +80,18 @@ def make_arch_scan(nodes, edges, limit=None, keep=None):
         shutil.rmtree(d, ignore_errors=True)
 
 
+_SPELL = [0]
+
+
+def _spell_names(names):
+    """The documented spellings of a module list (str | Sequence[str]), rotated: a list, a tuple, and for a single name the bare string."""
+    _SPELL[0] += 1
+    k = _SPELL[0] % 4
+    if len(names) == 1 and k in (1, 3):
+        return names[0]
+    return tuple(names) if k == 2 else list(names)
+
+
 def build_rule(spec):
     """spec: dict(subj=(kind, [names]) | None, verbs=[...], imp=True/False/None, exc=bool,
     obj=(kind, [names]) | None, anything=bool).  kind in named/sub/regex/containing."""
@@ -89,7 +101,7 @@ def build_rule(spec):
     if spec.get("subj") is not None:
         r.modules_that()
         kind, names = spec["subj"]
-        getattr(r, meth[kind])(names[0] if kind == "regex" else list(names))
+        getattr(r, meth[kind])(names[0] if kind == "regex" else _spell_names(names))
     for v in spec.get("verbs", []):
         getattr(r, v)()
     if spec.get("anything"):
@@ -102,7 +114,7 @@ def build_rule(spec):
         getattr(r, name)()
     if spec.get("obj") is not None:
         kind, names = spec["obj"]
-        getattr(r, meth[kind])(names[0] if kind == "regex" else list(names))
+        getattr(r, meth[kind])(names[0] if kind == "regex" else _spell_names(names))
     return r
 
 
